@@ -57,3 +57,11 @@ check("C06", "exploration",
       "Per mode, role and flight every single-step deviation (delete, duplicate, swap, inject each of 16 message types at every position, premature CCS) of the one-message-per-record re-framed flight is fed message by message on a fork()ed clone; a reference grammar locates the first illegal message; the final Finished is replaced by the value the receiver expects over ITS transcript (computed with the library's snapshot function, sealed with the sender's keys), so a lax state machine shows up as a COMPLETED deviant handshake; ~2.4k cases per seed (quick).",
       "The reference grammar is a reading of the RFCs restricted to messages this build emits; DTLS judged on deleted messages only; deviations in non-final flights cannot be continued by a consistent peer (the honest peer stops).",
       "reference-grammar monitor with a transcript-consistent deviant peer on fork-cloned handshakes, ASan+UBSan build", "3/C06")
+check("C16", "fault_enumeration",
+      "Datagram simulator in logical rounds following the reference applications' discipline: all 2^m drop patterns over the first m datagrams, every single duplicate / swap / delay position, seeded random schedules and spurious timeouts for full / resumed / client-auth handshakes x DTLS 1.0/1.2 x CBC/GCM x PMTU {1500,600,400,256}; replay phase re-delivers every captured record (incl. the peer's Finished, previous-epoch records, sequence gaps 1..40) at later positions; ~5.4k schedules + 8.7k replays (quick), ~320k cases (thorough). Oracle: each sent datagram delivered at most once, no error under a benign network, completion within 12 timeout rounds after the last fault.",
+      "Unbounded liveness restated as bounded progress in logical rounds; forging datagrams is outside this property's transport model; PMTU 256 only with PSK suites (2048-bit RSA messages do not fit).",
+      "schedule enumeration with an exactly-once / bounded-progress history oracle on fork-cloned runs, ASan+UBSan build", "3/C16")
+check("C17", "exploration",
+      "Link-time wrappers feed every AEAD key setup and seal, every CBC encryption and every PRNG output block to an online monitor while ~80 scenarios per seed (every AEAD and CBC suite x version x full/resumed/ticket/client-auth/0-RTT; DTLS with a lost flight and timeout-driven retransmissions) run handshakes, 22 sends of sizes 0..16384 in undrained bursts, error and closure alerts: no (key, nonce) pair seals two different (AAD||plaintext); the write sequence number moves by exactly the number of records sealed per API call; every CBC record starts with a PRNG block drawn after the previous record and never used before; protected DTLS (epoch,seq) pairs repeat only byte-identically.",
+      "Observation at the crypto-library boundary; HelloRetryRequest flights are not generated by this workload.",
+      "online trace monitor over hooked crypto primitives (link-time interposition), ASan+UBSan build", "3/C17")
